@@ -260,8 +260,17 @@ def run(ck, F):
                 ck.ok("R1", b, site, f"xs:{b} -> String (lexical form kept)")
             else:
                 ck.violation("R1", b, site, f"xs:{b} is carried by `{rust}`, which cannot hold every lexical form")
+        # the unbounded integer family fits no primitive, whatever its width: the width is not judged. The sign is: a type whose values
+        # are (also) negative has to be carried by a signed type — an unsigned carrier refuses every negative value of a valid instance
+        NEEDS_SIGN = {"integer": "-5", "negativeInteger": "-5", "nonPositiveInteger": "-5", "decimal": "-0.5"}
         for b in UNBOUNDED:
             ck.count("R1:unbounded builtins (width rule not armed)")
+            rust = disp.get(table.get(b))
+            if b in NEEDS_SIGN and rust is not None:
+                if str(rust).startswith("u"):
+                    ck.violation("R1", f"{b}:sign", site, f"xs:{b} is carried by the unsigned `{rust}`: the schema-valid value `{NEEDS_SIGN[b]}` is refused on deserialization")
+                else:
+                    ck.ok("R1", f"{b}:sign", site, f"xs:{b} is carried by `{rust}`, which has negative values")
     # R2: reuse the occurrence evaluation, keep only the Vec rows
     sub = _Sub(ck, "R2", lambda key: "not-Vec" in key or key.endswith("truth-table") or "floor" in key or "undecided" in key or "flags" in key)
     C02.rule_occurrence(sub, F, X)
